@@ -227,20 +227,11 @@ func (ex *Exec) callModular(fi *FuncInfo, recv *Value, args []Value, st *State, 
 	if con.readsClock {
 		ex.advanceClock(st)
 	}
-	bs := types.NewSlice(types.Typ[types.Uint8])
 	if con.seals {
-		st.ghost["aead.seal.aead"] = scalarV(nil, freshVar("aead", sortRef))
-		for _, k := range []string{"aead.seal.ad", "aead.seal.pt"} {
-			v := freshValue(k, bs)
-			st.ghost[k] = v
-		}
+		havocAEADTrace(st, "seal")
 	}
 	if con.opens {
-		st.ghost["aead.open.aead"] = scalarV(nil, freshVar("aead", sortRef))
-		for _, k := range []string{"aead.open.ad", "aead.open.nonce", "aead.open.ct"} {
-			v := freshValue(k, bs)
-			st.ghost[k] = v
-		}
+		havocAEADTrace(st, "open")
 	}
 	if con.allocates {
 		na := freshVar("alloc", sortMath)
